@@ -665,8 +665,7 @@ def handleBlocks (r : List String) : Option String := do
     | .error (.elseAfterElse l) => s!"err elseafter 0 {l}"
     | .error (.beforeCase l) => s!"err beforecase 0 {l}"
     | .error (.illegalInType l) => s!"err intype 0 {l}"
-    | .error (.fieldOutside l) => s!"err fieldoutside 0 {l}"
-    | .error (.caseAfterElse l) => s!"err caseafter 0 {l}")
+    | .error (.fieldOutside l) => s!"err fieldoutside 0 {l}")
 
 
 /-! ### the lexical layer (C14): `lex <text>` -> the token stream, one item per token -/
@@ -700,6 +699,10 @@ partial def parseSrcExpr : List String → Option (Src.Expr × List String)
       let (a, r1) ← parseSrcExpr r
       let (b, r2) ← parseSrcExpr r1
       pure (.bin op a b, r2)
+  | "X" :: b :: lo :: hi :: r => do
+      let b ← b.toNat?; let lo ← lo.toInt?; let hi ← hi.toInt?
+      let (i, r1) ← parseSrcExpr r
+      pure (.idx b lo hi i, r1)
   | "G" :: r => do let (a, r1) ← parseSrcExpr r; pure (.neg a, r1)
   | "T" :: r => do let (a, r1) ← parseSrcExpr r; pure (.not a, r1)
   | _ => none
@@ -773,6 +776,11 @@ partial def parseSrcStmt : List String → Option (Src.Stmt × List String)
   | "XD" :: r => some (.exitDo, r)
   | "XF" :: r => some (.exitFor, r)
   | "XS" :: r => some (.exitSub, r)
+  | "AI" :: b :: lo :: hi :: r => do
+      let b ← b.toNat?; let lo ← lo.toInt?; let hi ← hi.toInt?
+      let (i, r1) ← parseSrcExpr r
+      let (e, r2) ← parseSrcExpr r1
+      pure (.assignIdx b lo hi i e, r2)
   | "E" :: r => some (.end_, r)
   | "C" :: p :: n :: r => do
       let p ← p.toNat?; let n ← n.toNat?
